@@ -150,6 +150,73 @@ theorem stream_states_in_step (s : Sender) (hh : s.hdr = []) (hb : s.body = []) 
 example : (∀ st ∈ [(⟨⟨5, 1⟩, [(some 3, true), (some 0, false)]⟩ : SendStep)], st.msg.len ≤ maxPayload) := by
   simp [maxPayload]
 
+/-- `read_write_commute`: on one Machine an operation of the sending side (`WriteMessage`, any
+    `Flush`) and an operation of the receiving side (bytes arriving, `ReadMessage`) commute: both
+    orders give the same Machine state, the same read result, the same bytes written. -/
+theorem read_write_commute (d : Duplex) (s : Op) (r : ROp) :
+    (d.step (.send s)).step (.recv r) = (d.step (.recv r)).step (.send s) := by
+  cases r <;> rfl
+
+/-- full duplex: for ANY interleaving of sending-side and receiving-side operations on one
+    Machine, the sending side ends exactly as if only its own operations had run (same ghost log
+    of encryptions, same wire bytes, same buffers and nonce) and the receiving side — cipher
+    state, unread bytes and the result of every read — exactly as if only its own had run.
+    Together with `stream_in_order` / `trace_nonce_unique` this gives delivery and nonce
+    uniqueness for two directions active at once. -/
+theorem duplex_independent (ops : List DOp) : ∀ (d : Duplex),
+    (d.run ops).tx = runOps d.tx (sendPart ops) ∧
+    (d.run ops).rx = (recvPart ops).foldl RecvSide.step d.rx := by
+  induction ops with
+  | nil => intro d; exact ⟨rfl, rfl⟩
+  | cons op ops ih =>
+    intro d
+    cases op with
+    | send o =>
+      obtain ⟨h1, h2⟩ := ih (d.step (.send o))
+      exact ⟨h1, h2⟩
+    | recv o =>
+      obtain ⟨h1, h2⟩ := ih (d.step (.recv o))
+      exact ⟨h1, h2⟩
+
+/-- two Machines, both directions at once: A's sending side feeds B's receiving side while B
+    sends to A in arbitrary interleaving; what B reads is what A sent (here: everything A wrote
+    arrives before B reads, in any fragmentation of the arrival). -/
+theorem duplex_delivery (c : CipherState) (steps : List SendStep)
+    (hl : ∀ st ∈ steps, st.msg.len ≤ maxPayload) (frags : List (List WByte)) (rx0 : CipherState)
+    (other : List Op) (wire : List WByte) (s' : Sender)
+    (hsend : sendAll ⟨c, [], []⟩ steps = some (wire, s')) (hfr : frags.flatten = wire) :
+    recvAll steps.length c
+      ((((Duplex.mk (Trace.start rx0) ⟨c, [], []⟩).run
+          ((frags.map (fun f => DOp.recv (.arrive f))) ++ other.map DOp.send)).rx).inb)
+      = steps.map (·.msg) := by
+  obtain ⟨wire', s'', h1, h2, _⟩ := stream_in_order ⟨c, [], []⟩ rfl rfl steps hl
+  rw [hsend] at h1
+  injection h1 with h1
+  injection h1 with hw _
+  subst hw
+  obtain ⟨_, hrx⟩ := duplex_independent
+    ((frags.map (fun f => DOp.recv (.arrive f))) ++ other.map DOp.send) (Duplex.mk (Trace.start rx0) ⟨c, [], []⟩)
+  rw [hrx]
+  have hpart : ∀ (fs : List (List WByte)),
+      recvPart ((fs.map (fun f => DOp.recv (.arrive f))) ++ other.map DOp.send) = fs.map ROp.arrive := by
+    have a : ∀ (l : List Op), recvPart (l.map DOp.send) = [] := by
+      intro l; induction l with
+      | nil => rfl
+      | cons x xs ih => simpa [recvPart] using ih
+    intro fs
+    induction fs with
+    | nil => simpa using a other
+    | cons f fs ih => simp only [List.map_cons, List.cons_append, recvPart, ih]
+  rw [hpart frags]
+  have hinb : ∀ (fs : List (List WByte)) (r : RecvSide),
+      ((fs.map ROp.arrive).foldl RecvSide.step r).inb = r.inb ++ fs.flatten := by
+    intro fs
+    induction fs with
+    | nil => intro r; simp
+    | cons f fs ih => intro r; simp [List.foldl_cons, RecvSide.step, ih, List.append_assoc]
+  rw [hinb]
+  simpa [hfr] using h2
+
 /-! ## 4. tamper_fails -/
 
 /-- `tamper_fails` (one read): `ReadMessage` returns data only if the bytes in front of it are
